@@ -127,12 +127,16 @@ def main():
     ap.add_argument("--jobs", type=int, default=4)
     ap.add_argument("--seed", type=int, default=1)
     ap.add_argument("--only", default="")
+    ap.add_argument("--point", action="append", default=[], help="FILE:K - run exactly this mutation point (repeatable)")
     ap.add_argument("--out", default=os.path.join(VERIF, "mutants", "results.jsonl"))
     a = ap.parse_args()
     subprocess.run(["go", "build", "-o", "/tmp/mutate", "."], cwd=os.path.join(VERIF, "lib", "mutate"), env=ENV, check=True)
     rnd = random.Random(a.seed)
     jobs = []
-    for f, checks in TARGETS:
+    for pt in a.point:
+        f, k = pt.rsplit(":", 1)
+        jobs.append((f, int(k), dict(TARGETS)[f]))
+    for f, checks in ([] if a.point else TARGETS):
         if a.only and a.only not in f:
             continue
         n = int(subprocess.run(["/tmp/mutate", "-file", f, "-count"], cwd="/repo", capture_output=True, text=True).stdout or 0)
